@@ -327,8 +327,13 @@ class CurveFitting(object):
         sy = self._T
         sx2 = self._Q
         sy2 = self._W
-        r = ((n * sxy - sx * sy) / (sqrt(n * sx2 - sx * sx)
-                                    * sqrt(n * sy2 - sy * sy)))
+        dx = n * sx2 - sx * sx
+        dy = n * sy2 - sy * sy
+        if (dx < TOL * max(1.0, abs(n * sx2))
+                or dy < TOL * max(1.0, abs(n * sy2))):
+            # All the 'x' (or all the 'y') values are equal
+            raise ZeroDivisionError("Input data leads to a division by zero")
+        r = (n * sxy - sx * sy) / (sqrt(dx) * sqrt(dy))
         # Rounding may leave the result slightly outside [-1, 1]
         return max(-1.0, min(1.0, r))
 
